@@ -77,15 +77,34 @@ def _ftype(t):
     return FrameType.FIXED if t == "fixed" else FrameType.VARIABLE
 
 
+_PROPS = {}
+
+
 def mk_props(mp):
+    """The managed parameters.  Half of the time they are a fresh record; the other half ONE long-lived record per frame type
+    is re-configured through its public attributes (an application that switches channel configurations does that) - the
+    decoder must go by what the record says now."""
     from spacepackets.uslp.frame import FixedFrameProperties, VarFrameProperties
     iz = mp["iz"][0] if mp["iz"] else None
     fe = mp["fecf"][0] if mp["fecf"] else None
-    if mp["ftype"] == "fixed":
-        return FixedFrameProperties(fixed_len=mp["fixedlen"], has_insert_zone=iz is not None, has_fecf=fe is not None,
-                                    insert_zone_len=iz, fecf_len=fe)
-    return VarFrameProperties(has_insert_zone=iz is not None, has_fecf=fe is not None, truncated_frame_len=mp["trunclen"],
-                              insert_zone_len=iz, fecf_len=fe)
+    fixed = mp["ftype"] == "fixed"
+    if ((iz or 0) + (fe or 0) + (mp["fixedlen"] if fixed else mp["trunclen"])) % 2 and mp["ftype"] in _PROPS:
+        pr = _PROPS[mp["ftype"]]
+        pr.insert_zone_properties.present, pr.insert_zone_properties.size = iz is not None, iz
+        pr.fecf_properties.present, pr.fecf_properties.size = fe is not None, fe
+        if fixed:
+            pr.fixed_len = mp["fixedlen"]
+        else:
+            pr.truncated_frame_len = mp["trunclen"]
+        return pr
+    if fixed:
+        pr = FixedFrameProperties(fixed_len=mp["fixedlen"], has_insert_zone=iz is not None, has_fecf=fe is not None,
+                                  insert_zone_len=iz, fecf_len=fe)
+    else:
+        pr = VarFrameProperties(has_insert_zone=iz is not None, has_fecf=fe is not None, truncated_frame_len=mp["trunclen"],
+                                insert_zone_len=iz, fecf_len=fe)
+    _PROPS.setdefault(mp["ftype"], pr)
+    return pr
 
 
 def mk_frame(f):
